@@ -1,6 +1,10 @@
-/- line-protocol driver for C11: `drv_c11 <sub-command>` reads operations on stdin, prints one canonical line per operation.
+/- line-protocol driver for C11: `drv_c11 literals` (protocol in Driver/LiteralsCmd.lean).
    Core Lean only (nothing imported here may import Mathlib, or the executable will not link). -/
+import ChibiVerif.Driver.LiteralsCmd
 
 def main (args : List String) : IO UInt32 := do
-  IO.eprintln s!"drv_c11: no sub-commands yet (args {args})"
-  return 2
+  match args with
+  | "literals" :: _ => ChibiVerif.Driver.literalsMain
+  | _ =>
+    IO.eprintln "usage: drv_c11 literals"
+    return 2
